@@ -31,6 +31,21 @@ pub(crate) fn gen_lit_str(s: &str) -> String {
     format!("{:?}", s)
 }
 
+/// Spell a float so that both JavaScript and the expression parser read the same value back.
+///
+/// Rust displays non-finite floats as `inf` and `NaN` , which are identifiers there.
+pub(crate) fn gen_lit_float(x: f64) -> String {
+    if x.is_finite() {
+        x.to_string()
+    } else if x.is_nan() {
+        "(0/0)".to_string()
+    } else if x > 0. {
+        "1e999".to_string()
+    } else {
+        "(-1e999)".to_string()
+    }
+}
+
 pub(crate) fn dash_to_camel(s: &str) -> CompactString {
     let mut camel_name = CompactString::new("");
     let mut next_upper = false;
